@@ -64,11 +64,16 @@ func runC20(c *Ctx) {
 		Query{First: atoms[1], Rest: []Link{{Or: true, Atom: atoms[5]}}})
 	for _, cfg := range cfgs {
 		cfg := cfg
-		e := &Explorer{C: c, Cfg: cfg, Prop: "C20", Alphabet: alphabetContents(cfg), Depth: depth, MaxLive: 3, Collect: true}
+		e := &Explorer{C: c, Cfg: cfg, Prop: "C20", Alphabet: alphabetContents(cfg), Depth: depth, MaxLive: 3, Collect: true, NoShard: true}
 		e.Run()
+		item := 0
 		for _, st := range e.States {
 			for qi, q := range queries {
 				for _, ws := range seqs {
+					item++
+					if item%c.NShards != c.Shard {
+						continue
+					}
 					if c.Expired() {
 						c.Count("depth_incomplete", 1)
 						return
